@@ -62,7 +62,7 @@ inductive Reach (w : World) (allow : Bool) (roots : List Str) : Loc → Prop
 
 /-- no folder entry's name is specification-like *in effect*: every matching entry of every folder, re-read as
     a specification found in that folder, resolves to the entry itself.  (False for entries named `\\x.csv`,
-    `file:x.csv`, `FILE:x.csv`, `<registered protocol>:x.csv` — known finding F4.)  Decidable on the world. -/
+    `file:x.csv`, `FILE:x.csv`, `<registered protocol>:x.csv` — known finding F6.)  Decidable on the world. -/
 def entriesFaithful (w : World) : Bool :=
   w.nodes.all fun p => match p.2 with
     | .folder ch => ch.all fun c => !c.2 || target w c.1 (some p.1) == w.childLoc p.1 c.1
@@ -997,7 +997,7 @@ theorem reads_sound_partial (w : World) (cfg : Cfg) (roots : List Str) (hf : Spe
 
 /-- **reads_reachable_partial**: in a world whose folder entries resolve to themselves, a load that runs to
     completion has read exactly the locations reachable from the roots through folder name matching and include
-    directives.  (Missing for full strength: the worlds excluded by `entriesFaithful` — known finding F4.) -/
+    directives.  (Missing for full strength: the worlds excluded by `entriesFaithful` — known finding F6.) -/
 theorem reads_reachable_partial (w : World) (cfg : Cfg) (roots : List Str) (hf : Spec.entriesFaithful w = true)
     (hd : (loadFiles w cfg roots).2 = .done) (l : Loc) :
     l ∈ (loadFiles w cfg roots).1.visited ↔ Spec.Reach (effWorld cfg.raising w) cfg.allowInclude roots l :=
@@ -1492,7 +1492,7 @@ example : (loadFiles worldBad collecting ["a.csv".toList]).2 = .done ∧
     (loadFiles worldBad raising ["a.csv".toList]).1.out.map (·.blk.name) = ["ta".toList] ∧
     (loadFiles worldBad raising ["a.csv".toList]).1.visited = [1] := by decide
 
-/-- known finding F4, the negation witness of the full-strength `reads_reachable`: the folder `/` lists
+/-- known finding F6, the negation witness of the full-strength `reads_reachable`: the folder `/` lists
     `file:b.csv` and `b.csv`; the loader re-reads the first name as a specification, strips `file:` and arrives
     at `b.csv` a second time — `file:b.csv` (location 5) is reachable through folder name matching and is never
     read, and the load completes (one spurious "included multiple times" error) -/
